@@ -285,7 +285,7 @@ func (bm *booksModel) ask(hw *histWorld, op Sx) (modelAns, bool) {
 	ma, ok := parseAns(raw)
 	if !ok {
 		bm.lose(hw, Render(op), raw)
-		hw.c.Disagree([]string{"C17", "C19"}, Render(op), "", raw, hw.b.replay())
+		hw.c.Disagree([]string{"C17", "C19", "C18"}, Render(op), "", raw, hw.b.replay())
 		return ma, false
 	}
 	bm.nTok = ma.tokens
@@ -364,7 +364,7 @@ func (bm *booksModel) compare(hw *histWorld, opLine string, w *bWallet, ma model
 		}
 		impl := fmt.Sprintf("(%s) %s [%s]%s", implRes, rs, strings.Join(implTrace, " "), errs)
 		model := fmt.Sprintf("(%s) %s [%s] %s", modelRes, ma.snap, strings.Join(modelTrace, " "), ma.res)
-		hw.c.Disagree([]string{"C17", "C19"}, opLine, impl, model, hw.b.replay())
+		hw.c.Disagree([]string{"C17", "C19", "C18"}, opLine, impl, model, hw.b.replay())
 		hw.c.Hist("model", "disagree")
 		bm.lose(hw, opLine, "disagreement")
 		return
